@@ -25,43 +25,43 @@ var (
 )
 
 var diSpecs = map[string][]fieldSpec{
-	"DIFile":        {{"filename", "str", true}, {"directory", "str", true}, {"checksumkind", "csk", false}, {"source", "str", false}},
-	"DIBasicType":   {{"tag", "enum:DW_TAG_base_type|DW_TAG_unspecified_type", false}, {"name", "str", false}, {"size", "int", false}, {"align", "int", false}, {"encoding", "enum:" + dwATE, false}, {"flags", "flags", false}},
-	"DIStringType":  {{"name", "str", false}, {"stringLength", "ref:localvar", false}, {"stringLengthExpression", "expr", false}, {"size", "int", false}, {"align", "int", false}, {"encoding", "enum:DW_ATE_UTF|DW_ATE_ASCII", false}},
-	"DIDerivedType": {{"tag", "enum:DW_TAG_pointer_type|DW_TAG_typedef|DW_TAG_const_type|DW_TAG_member|DW_TAG_reference_type|DW_TAG_volatile_type|DW_TAG_inheritance", true}, {"name", "str", false}, {"scope", "ref:scope", false}, {"file", "ref:file", false}, {"line", "int", false}, {"baseType", "nullableRef:type", true}, {"size", "int", false}, {"align", "int", false}, {"offset", "int", false}, {"flags", "flags", false}, {"dwarfAddressSpace", "int", false}},
-	"DICompositeType": {{"tag", "enum:DW_TAG_structure_type|DW_TAG_class_type|DW_TAG_union_type|DW_TAG_enumeration_type|DW_TAG_array_type", true}, {"name", "str", false}, {"scope", "ref:scope", false}, {"file", "ref:file", false}, {"line", "int", false}, {"baseType", "ref:type", false}, {"size", "int", false}, {"align", "int", false}, {"offset", "int", false}, {"flags", "flags", false}, {"elements", "tuple:element", false}, {"runtimeLang", "enum:" + dwLangs, false}, {"templateParams", "tuple:tparam", false}, {"identifier", "str", false}},
-	"DISubroutineType": {{"flags", "flags", false}, {"cc", "enum:" + dwCC, false}, {"types", "tuple:typeOrNull", true}},
-	"DIEnumerator":     {{"name", "str", true}, {"value", "sint", true}, {"isUnsigned", "bool", false}},
-	"DISubrange":       {{"count", "sint", false}, {"lowerBound", "sint", false}, {"upperBound", "sint", false}, {"stride", "sint", false}},
-	"DITemplateTypeParameter":  {{"name", "str", false}, {"type", "ref:type", true}, {"defaulted", "bool", false}},
-	"DITemplateValueParameter": {{"tag", "enum:DW_TAG_template_value_parameter|DW_TAG_GNU_template_template_param", false}, {"name", "str", false}, {"type", "ref:type", false}, {"defaulted", "bool", false}, {"value", "mdvalue", true}},
-	"DINamespace":  {{"name", "str", false}, {"scope", "nullableRef:scope", true}, {"exportSymbols", "bool", false}},
-	"DIModule":     {{"scope", "nullableRef:scope", true}, {"name", "str", true}, {"configMacros", "str", false}, {"includePath", "str", false}, {"apinotes", "str", false}, {"file", "ref:file", false}, {"line", "int", false}, {"isDecl", "bool", false}},
-	"DILexicalBlock":     {{"scope", "ref:localscope", true}, {"file", "ref:file", false}, {"line", "int", false}, {"column", "int", false}},
-	"DILexicalBlockFile": {{"scope", "ref:localscope", true}, {"file", "ref:file", false}, {"discriminator", "int", true}},
-	"DILocalVariable":    {{"name", "str", false}, {"arg", "int", false}, {"scope", "ref:localscope", true}, {"file", "ref:file", false}, {"line", "int", false}, {"type", "ref:type", false}, {"flags", "flags", false}, {"align", "int", false}},
-	"DILabel":            {{"scope", "ref:localscope", true}, {"name", "str", true}, {"file", "ref:file", true}, {"line", "int", true}},
-	"DIGlobalVariable":   {{"name", "str", true}, {"linkageName", "str", false}, {"scope", "ref:scope", false}, {"file", "ref:file", false}, {"line", "int", false}, {"type", "ref:type", false}, {"isLocal", "bool", false}, {"isDefinition", "bool", false}, {"align", "int", false}},
+	"DIFile":                     {{"filename", "str", true}, {"directory", "str", true}, {"checksumkind", "csk", false}, {"source", "str", false}},
+	"DIBasicType":                {{"tag", "enum:DW_TAG_base_type|DW_TAG_unspecified_type", false}, {"name", "str", false}, {"size", "int", false}, {"align", "int", false}, {"encoding", "enum:" + dwATE, false}, {"flags", "flags", false}},
+	"DIStringType":               {{"name", "str", false}, {"stringLength", "ref:localvar", false}, {"stringLengthExpression", "expr", false}, {"size", "int", false}, {"align", "int", false}, {"encoding", "enum:DW_ATE_UTF|DW_ATE_ASCII", false}},
+	"DIDerivedType":              {{"tag", "enum:DW_TAG_pointer_type|DW_TAG_typedef|DW_TAG_const_type|DW_TAG_member|DW_TAG_reference_type|DW_TAG_volatile_type|DW_TAG_inheritance", true}, {"name", "str", false}, {"scope", "ref:scope", false}, {"file", "ref:file", false}, {"line", "int", false}, {"baseType", "nullableRef:type", true}, {"size", "int", false}, {"align", "int", false}, {"offset", "int", false}, {"flags", "flags", false}, {"dwarfAddressSpace", "int", false}},
+	"DICompositeType":            {{"tag", "enum:DW_TAG_structure_type|DW_TAG_class_type|DW_TAG_union_type|DW_TAG_enumeration_type|DW_TAG_array_type", true}, {"name", "str", false}, {"scope", "ref:scope", false}, {"file", "ref:file", false}, {"line", "int", false}, {"baseType", "ref:type", false}, {"size", "int", false}, {"align", "int", false}, {"offset", "int", false}, {"flags", "flags", false}, {"elements", "tuple:element", false}, {"runtimeLang", "enum:" + dwLangs, false}, {"templateParams", "tuple:tparam", false}, {"identifier", "str", false}},
+	"DISubroutineType":           {{"flags", "flags", false}, {"cc", "enum:" + dwCC, false}, {"types", "tuple:typeOrNull", true}},
+	"DIEnumerator":               {{"name", "str", true}, {"value", "sint", true}, {"isUnsigned", "bool", false}},
+	"DISubrange":                 {{"count", "sint", false}, {"lowerBound", "sint", false}, {"upperBound", "sint", false}, {"stride", "sint", false}},
+	"DITemplateTypeParameter":    {{"name", "str", false}, {"type", "ref:type", true}, {"defaulted", "bool", false}},
+	"DITemplateValueParameter":   {{"tag", "enum:DW_TAG_template_value_parameter|DW_TAG_GNU_template_template_param", false}, {"name", "str", false}, {"type", "ref:type", false}, {"defaulted", "bool", false}, {"value", "mdvalue", true}},
+	"DINamespace":                {{"name", "str", false}, {"scope", "nullableRef:scope", true}, {"exportSymbols", "bool", false}},
+	"DIModule":                   {{"scope", "nullableRef:scope", true}, {"name", "str", true}, {"configMacros", "str", false}, {"includePath", "str", false}, {"apinotes", "str", false}, {"file", "ref:file", false}, {"line", "int", false}, {"isDecl", "bool", false}},
+	"DILexicalBlock":             {{"scope", "ref:localscope", true}, {"file", "ref:file", false}, {"line", "int", false}, {"column", "int", false}},
+	"DILexicalBlockFile":         {{"scope", "ref:localscope", true}, {"file", "ref:file", false}, {"discriminator", "int", true}},
+	"DILocalVariable":            {{"name", "str", false}, {"arg", "int", false}, {"scope", "ref:localscope", true}, {"file", "ref:file", false}, {"line", "int", false}, {"type", "ref:type", false}, {"flags", "flags", false}, {"align", "int", false}},
+	"DILabel":                    {{"scope", "ref:localscope", true}, {"name", "str", true}, {"file", "ref:file", true}, {"line", "int", true}},
+	"DIGlobalVariable":           {{"name", "str", true}, {"linkageName", "str", false}, {"scope", "ref:scope", false}, {"file", "ref:file", false}, {"line", "int", false}, {"type", "ref:type", false}, {"isLocal", "bool", false}, {"isDefinition", "bool", false}, {"align", "int", false}},
 	"DIGlobalVariableExpression": {{"var", "ref:globalvar", true}, {"expr", "expr", true}},
-	"DIObjCProperty":     {{"name", "str", false}, {"file", "ref:file", false}, {"line", "int", false}, {"setter", "str", false}, {"getter", "str", false}, {"attributes", "int", false}, {"type", "ref:type", false}},
-	"DIImportedEntity":   {{"tag", "enum:DW_TAG_imported_module|DW_TAG_imported_declaration", true}, {"name", "str", false}, {"scope", "ref:scope", true}, {"entity", "ref:scope", false}, {"file", "ref:file", false}, {"line", "int", false}},
-	"DIMacro":            {{"type", "enum:DW_MACINFO_define|DW_MACINFO_undef", true}, {"line", "int", false}, {"name", "str", true}, {"value", "str", false}},
-	"DICommonBlock":      {{"scope", "ref:scope", true}, {"declaration", "ref:globalvar", false}, {"name", "str", false}, {"file", "ref:file", false}, {"line", "int", false}},
-	"GenericDINode":      {{"tag", "enum:DW_TAG_lexical_block|DW_TAG_variable|DW_TAG_label", true}, {"header", "str", false}, {"operands", "braces", false}},
+	"DIObjCProperty":             {{"name", "str", false}, {"file", "ref:file", false}, {"line", "int", false}, {"setter", "str", false}, {"getter", "str", false}, {"attributes", "int", false}, {"type", "ref:type", false}},
+	"DIImportedEntity":           {{"tag", "enum:DW_TAG_imported_module|DW_TAG_imported_declaration", true}, {"name", "str", false}, {"scope", "ref:scope", true}, {"entity", "ref:scope", false}, {"file", "ref:file", false}, {"line", "int", false}},
+	"DIMacro":                    {{"type", "enum:DW_MACINFO_define|DW_MACINFO_undef", true}, {"line", "int", false}, {"name", "str", true}, {"value", "str", false}},
+	"DICommonBlock":              {{"scope", "ref:scope", true}, {"declaration", "ref:globalvar", false}, {"name", "str", false}, {"file", "ref:file", false}, {"line", "int", false}},
+	"GenericDINode":              {{"tag", "enum:DW_TAG_lexical_block|DW_TAG_variable|DW_TAG_label", true}, {"header", "str", false}, {"operands", "braces", false}},
 }
 
 // di holds the pools of the debug-info graph being generated.
 type di struct {
-	g       *G
-	next    int
-	files   []*am.MDNode
-	types   []*am.MDNode
-	scopes  []*am.MDNode // file-level scopes: files, namespaces, modules, composite types, compile unit
-	locals  []*am.MDNode // local scopes: subprograms, lexical blocks
-	gvars   []*am.MDNode
-	lvars   []*am.MDNode
-	cu      *am.MDNode
-	nodes   []*am.MDNode
+	g      *G
+	next   int
+	files  []*am.MDNode
+	types  []*am.MDNode
+	scopes []*am.MDNode // file-level scopes: files, namespaces, modules, composite types, compile unit
+	locals []*am.MDNode // local scopes: subprograms, lexical blocks
+	gvars  []*am.MDNode
+	lvars  []*am.MDNode
+	cu     *am.MDNode
+	nodes  []*am.MDNode
 }
 
 func (d *di) node(kind string, distinct bool) *am.MDNode {
